@@ -964,6 +964,56 @@ func c10SweepCases(c *core.Ctx) []c10Case {
 			mk("client", lens[i:j])
 		}
 	}
+	// every protocol type 0..255, well formed, towards the sender's own session and towards the other
+	// user's session. On UDP an unknown or wrong type costs at most the session, so several per case; on
+	// TCP most of them end the connection: one per case (quick: the defined types and a sample).
+	plainType := func(p int, sel string, role string) c10Seg {
+		g := c10Seg{Kind: "seg", Proto: p, SidSel: sel, SeqSel: "next", Window: 64, ExtLen: -1, DeclPre: -1, DeclPay: -1, DeclSuf: -1,
+			KeyUser: "bob", From: "home"}
+		if role == "client" {
+			g.KeyUser = "alice"
+		}
+		if c10IsLE(p) {
+			g.Byte1, g.LEMask = 1, 0x0f0f0f0f
+		}
+		if c10IsData(p) {
+			g.PayloadN = 12
+		}
+		return g
+	}
+	for _, role := range []string{"server", "client"} {
+		for base := 0; base < 256; base += 8 {
+			k := c10Case{Role: role, UDP: true, Seed: c.Rand.Int63(), Setup: 2}
+			k.Own1 = 1 + c.Rand.Uint32()%2000000000
+			k.Own2 = 2000000001 + c.Rand.Uint32()%1000000000
+			for p := base; p < base+8; p++ {
+				sel := "own1"
+				if p%2 == 1 {
+					sel = "victim"
+				}
+				k.Steps = append(k.Steps, plainType(p, sel, role))
+			}
+			out = append(out, k)
+		}
+		var types []int
+		if c.Thorough() {
+			for p := 0; p < 256; p++ {
+				types = append(types, p)
+			}
+		} else {
+			for p := 0; p < 14; p++ {
+				types = append(types, p)
+			}
+			types = append(types, 64+c.Rand.Intn(64), 128+c.Rand.Intn(64), 255)
+		}
+		for _, p := range types {
+			k := c10Case{Role: role, UDP: false, Seed: c.Rand.Int63(), Setup: 2}
+			k.Own1 = 1 + c.Rand.Uint32()%2000000000
+			k.Own2 = 2000000001 + c.Rand.Uint32()%1000000000
+			k.Steps = []c10Seg{plainType(p, []string{"own1", "victim"}[p%2], role)}
+			out = append(out, k)
+		}
+	}
 	// TCP: every garbage arrival ends the connection, so one arrival per case
 	tl := []int{1, 23, 24, 47, 48, 71, 72, 73, 2000}
 	if c.Thorough() {
